@@ -210,7 +210,7 @@ func runBaumWelch(p *packages.Package, d *declIndex, v bwVariant) (*bwResult, st
 	}
 	cfg := vn.Config{Pkg: p, TypeName: "Real64", Spec: distSpec, InlineOps: inlineOps, Decl: d.find, ParamNames: true, MaxDepth: 8, UnrollConst: true, FiniteSyms: true,
 		RecvStruct: hmm1, Opaque: hook,
-		ParamValues: map[string]vn.Value{"hmm1": hmm1, "hmm2": hmm2, "data": &vn.OpaqueVal{What: "hmmdata"}, "meta": meta, "tmp": &tmp, "p": &vn.OpaqueVal{What: "pool"}}}
+		ParamList: []vn.Value{hmm1, hmm2, &vn.OpaqueVal{What: "hmmdata"}, meta, &tmp, &vn.OpaqueVal{What: "pool"}}}
 	paths, und := vn.Run(cfg, fd)
 	if und != nil {
 		return nil, "BaumWelchStep left the interpreter's idiom set: " + und.Msg
